@@ -21,7 +21,8 @@ package mr
 //   position k of the option list (default: last).
 //
 // script = actions joined by '.', '-' = empty.  Actions:
-//   w<v> Write(v)      c<k> cancel(error k), c0 = cancel(nil)      p panic
+//   w<v> Write(v)      c<k> cancel(error k), c0 = cancel(nil)      p panic (string value)   pe panic with an ERROR value
+//   q    runtime.Goexit() (the user function ends here without returning; deferred calls of the library run)
 //   a    read the pipe until it is closed (reducer)                o read one value (reducer)
 //   s    stall until the call has returned to the harness          x cancel the harness context
 //   y    yield the processor a few times
@@ -62,13 +63,87 @@ type c10Err struct{ k int }
 
 func (e c10Err) Error() string { return "E" + strconv.Itoa(e.k) }
 
+// The error VALUE classes a user function can hand to cancel / return from a Finish function (c<k>):
+//   k = 0        nil                                  (the library records ErrCancelWithNil)
+//   k = 1..99    c10Err{k}: a struct value with a non-zero field
+//   k = 101      c10ZeroStruct{}: an empty-struct sentinel with a value receiver (the zero value of its type)
+//   k = 102      c10Code(0): an int-coded error with code 0            (zero value)
+//   k = 103      c10Text(""): a string-coded error with an empty text  (zero value)
+//   k = 104      (*c10Ptr)(nil): a typed nil pointer — a NON-nil error (zero value)
+//   k = 105      &c10Ptr{}: a non-nil pointer to a zero struct
+//   k = 106      fmt.Errorf("…%w", c10Err{106}): a wrapped error
+//   k = 107      c10Slice(nil): an error of an uncomparable type, nil slice (zero value)
+//   k = 108      c10Err{0}: a struct whose fields are all zero        (zero value)
+//   k = 109      context.Canceled handed to cancel by the USER (no context option needed)
+//   k = 110      ErrCancelWithNil handed to cancel explicitly (same outcome as cancel(nil))
+//   k = 111      ErrReduceNoOutput handed to cancel: the library's own "no output" sentinel as a cancel error
+//   k = 112      fmt.Errorf("…%w", ErrReduceNoOutput): an error that WRAPS the sentinel (what a nested
+//                MapReduce call without output returns, decorated by the caller)
+// All of them are non-nil errors except k = 0: "an error that was passed to cancel" must come back.
+type c10ZeroStruct struct{}
+
+func (c10ZeroStruct) Error() string { return "zero-struct" }
+
+type c10Code int
+
+func (c c10Code) Error() string { return "code" + strconv.Itoa(int(c)) }
+
+type c10Text string
+
+func (c c10Text) Error() string { return "text:" + string(c) }
+
+type c10Ptr struct{ k int }
+
+func (p *c10Ptr) Error() string { return "ptr" }
+
+type c10Slice []error
+
+func (c10Slice) Error() string { return "slice" }
+
+func c10MkErr(k int) error {
+	switch k {
+	case 0:
+		return nil
+	case 101:
+		return c10ZeroStruct{}
+	case 102:
+		return c10Code(0)
+	case 103:
+		return c10Text("")
+	case 104:
+		return (*c10Ptr)(nil)
+	case 105:
+		return &c10Ptr{}
+	case 106:
+		return fmt.Errorf("wrapped: %w", c10Err{106})
+	case 107:
+		return c10Slice(nil)
+	case 108:
+		return c10Err{0}
+	case 109:
+		return context.Canceled
+	case 110:
+		return ErrCancelWithNil
+	case 111:
+		return ErrReduceNoOutput
+	case 112:
+		return fmt.Errorf("inner call: %w", ErrReduceNoOutput)
+	}
+	return c10Err{k}
+}
+
 // c10Hangs counts the calls of this process that did not return: after c10MaxHangs of them the remaining
 // operations are not executed (`res=skipped`), so that a broken tree costs seconds, not the whole budget
 // (every hang costs the watchdog time; the replay / shrinking of a hang runs in a fresh process).
 var c10Hangs int32
 
+// c10Leaks counts the calls of this process that left goroutines behind: every one of them costs the whole settle
+// time (and is a violation already), so after c10MaxLeaks of them the remaining operations are not executed either.
+var c10Leaks int32
+
 const (
 	c10MaxHangs    = 3
+	c10MaxLeaks    = 5
 	c10ProbeYields = 400
 	c10HangMax   = 4 * time.Second
 	c10SettleMax = 1500 * time.Millisecond
@@ -81,7 +156,25 @@ func c10Script(s string) []string {
 	return strings.Split(s, ".")
 }
 
+// c10PanicErr: a panic whose value is an ERROR (action `pe`); the re-raised value must be this very value.
+type c10PanicErr struct{ name string }
+
+func (e c10PanicErr) Error() string { return "errval:" + e.name }
+
+// c10PanicVal: the value a user function panics with: a string (`p`) or an error value (`pe`).
+func c10PanicVal(a, name string) any {
+	if a == "pe" {
+		return c10PanicErr{name}
+	}
+	return name
+}
+
+func c10IsPanic(a string) bool { return a == "p" || a == "pe" }
+
 func c10PanicName(p any) string {
+	if pe, ok := p.(c10PanicErr); ok {
+		p = pe.name
+	}
 	s := fmt.Sprint(p)
 	switch {
 	case strings.HasPrefix(s, "pm") || s == "pr" || s == "pg":
@@ -105,6 +198,40 @@ func c10PanicName(p any) string {
 
 func c10ErrName(err error) string {
 	var ce c10Err
+	switch e := err.(type) {
+	case c10ZeroStruct:
+		return "E101"
+	case c10Code:
+		if e == 0 {
+			return "E102"
+		}
+		return "other"
+	case c10Text:
+		if e == "" {
+			return "E103"
+		}
+		return "other"
+	case *c10Ptr:
+		if e == nil {
+			return "E104"
+		}
+		return "E105"
+	case c10Slice:
+		if e == nil {
+			return "E107"
+		}
+		return "other"
+	case c10Err:
+		if e.k == 0 {
+			return "E108"
+		}
+	}
+	switch {
+	case err == context.Canceled:
+		return "E109" // the library itself never returns context.Canceled (it returns DeadlineExceeded)
+	case err != ErrReduceNoOutput && errors.Is(err, ErrReduceNoOutput):
+		return "E112"
+	}
 	switch {
 	case errors.As(err, &ce):
 		return "E" + strconv.Itoa(ce.k)
@@ -164,7 +291,7 @@ func c10Exec(op []string) string {
 	if len(op) == 0 || op[0] != "run" {
 		return "bad-op"
 	}
-	if atomic.LoadInt32(&c10Hangs) >= c10MaxHangs {
+	if atomic.LoadInt32(&c10Hangs) >= c10MaxHangs || atomic.LoadInt32(&c10Leaks) >= c10MaxLeaks {
 		return "res=skipped left=0 mapped=- reduced=- hist=- stalltimeouts=0 panicked=0 waitsbyret=0 nestedbad=0"
 	}
 	cfg := verifh.ParseCfg(strings.Join(op[1:], " "))
@@ -215,7 +342,20 @@ func c10Exec(op []string) string {
 	ctx, cancelCtx := context.Background(), func() {}
 	mode := cfg.Str("ctx", "none")
 	if mode != "none" {
-		ctx, cancelCtx = context.WithCancel(context.Background())
+		switch cfg.Str("ck", "c") {
+		case "d": // a context with a DEADLINE: already past (ctx=pre: Err() = DeadlineExceeded) or far away, ended by its cancel
+			if mode == "pre" {
+				ctx, cancelCtx = context.WithDeadline(context.Background(), time.Unix(1, 0))
+			} else {
+				ctx, cancelCtx = context.WithTimeout(context.Background(), time.Hour)
+			}
+		case "v": // a derived context (value context on top of a cancel context)
+			var inner context.Context
+			inner, cancelCtx = context.WithCancel(context.Background())
+			ctx = context.WithValue(inner, c10CtxKey{}, 1)
+		default:
+			ctx, cancelCtx = context.WithCancel(context.Background())
+		}
 	}
 	endCtx := func() {
 		ev.fire("xa", "xa")
@@ -276,8 +416,15 @@ func c10Exec(op []string) string {
 	// who = "m<i>" or "r"
 	common := func(who, a string, cancel func(error), write func(int)) bool {
 		switch {
-		case a == "p":
+		case c10IsPanic(a):
 			return false // handled by the caller (panic value differs)
+		case a == "q":
+			// runtime.Goexit: the goroutine the library runs this user function on ends here; deferred calls run,
+			// recover() sees nothing.  For the property this is a return of the user function.
+			if who == "r" {
+				ev.fire("re", "re")
+			}
+			runtime.Goexit()
 		case a == "s":
 			stall()
 		case a == "x":
@@ -295,11 +442,7 @@ func c10Exec(op []string) string {
 		case a[0] == 'c':
 			k := verifh.Atoi(a[1:])
 			ev.fire("cb"+who+"_"+strconv.Itoa(k), "cb"+who, "cb")
-			if k == 0 {
-				cancel(nil)
-			} else {
-				cancel(c10Err{k})
-			}
+			cancel(c10MkErr(k))
 			ev.fire("ce"+who, "ce"+who, "ce")
 		default:
 			panic("verif: bad action " + a)
@@ -342,7 +485,7 @@ func c10Exec(op []string) string {
 			if !common("m"+is, a, cancel, wr.Write) {
 				atomic.AddInt32(&panicked, 1)
 				ev.fire("pm"+is, "pm"+is, "pm")
-				panic("pm" + is)
+				panic(c10PanicVal(a, "pm"+is))
 			}
 		}
 	}
@@ -354,14 +497,14 @@ func c10Exec(op []string) string {
 		defer ev.fire("e"+is, "e"+is)
 		for _, a := range ms[item] {
 			switch {
-			case a == "p":
+			case c10IsPanic(a):
 				atomic.AddInt32(&panicked, 1)
 				ev.fire("pm"+is, "pm"+is, "pm")
-				panic("pm" + is)
+				panic(c10PanicVal(a, "pm"+is))
 			case a[0] == 'c':
 				k := verifh.Atoi(a[1:])
 				ev.fire("cbm"+is+"_"+strconv.Itoa(k), "cbm"+is, "cb")
-				return c10Err{k}
+				return c10MkErr(k)
 			case a[0] == 'w' || a == "x" || a == "a" || a == "o":
 				panic("verif: bad action for Finish " + a)
 			default:
@@ -403,7 +546,7 @@ func c10Exec(op []string) string {
 				if !common("r", a, cancel, write) {
 					atomic.AddInt32(&panicked, 1)
 					ev.fire("rp", "rp")
-					panic("pr")
+					panic(c10PanicVal(a, "pr"))
 				}
 			}
 		}
@@ -512,6 +655,7 @@ func c10Exec(op []string) string {
 	left := 0
 	if !verifh.SettleGoroutines(base, c10SettleMax) {
 		left = runtime.NumGoroutine() - base
+		atomic.AddInt32(&c10Leaks, 1)
 	}
 	mu.Lock()
 	defer mu.Unlock()
@@ -595,6 +739,8 @@ func c10Nested() (bad int) {
 	return bad
 }
 
+type c10CtxKey struct{}
+
 type c10NoWriter struct{}
 
 func (c10NoWriter) Write(int) {}
@@ -623,6 +769,7 @@ type c10Cfg struct {
 	api    string
 	ws     string // text of w= if it is not the plain effective count: "def", "0", "-3", "5,2" (w = the effective count)
 	co     int    // position of the WithContext option + 1 (0 = default: last)
+	ck     string // kind of the context: "" / "c" cancel context, "d" deadline context, "v" derived value context
 	n, w   int
 	ctx    string
 	gp, gx int
@@ -664,6 +811,9 @@ func (c c10Cfg) String() string {
 	if c.co > 0 && c.ctx != "none" {
 		line += " co=" + strconv.Itoa(c.co-1)
 	}
+	if c.ck != "" && c.ck != "c" && c.ctx != "none" {
+		line += " ck=" + c.ck
+	}
 	return line
 }
 
@@ -691,6 +841,10 @@ func c10Vary(r *verifh.Rng, c c10Cfg) c10Cfg {
 	case 3:
 		if c.ctx != "none" {
 			c.co = 1 // WithContext first
+		}
+	case 6, 7:
+		if c.ctx != "none" {
+			c.ck = r.PickS("d", "v")
 		}
 	case 4, 5:
 		if c.api == "mr" && c.gp < 0 {
@@ -906,6 +1060,147 @@ func c10Entries(r *verifh.Rng) []c10Cfg {
 	return out
 }
 
+// c10SpecialErrs: the error VALUE classes of c10MkErr besides the plain struct value.
+var c10SpecialErrs = []int{101, 102, 103, 104, 105, 106, 107, 108, 109, 110, 111, 112}
+
+func c10IsCancelTok(a string) bool {
+	if len(a) < 2 || a[0] != 'c' {
+		return false
+	}
+	_, err := strconv.Atoi(a[1:])
+	return err == nil && a != "c0"
+}
+
+// c10VaryErr re-expresses the cancel errors of a call by other error VALUE classes (zero-valued struct / int / string /
+// typed nil pointer / wrapped / uncomparable / the library's own sentinels).  The expected behaviour does not change:
+// the error that was passed to cancel comes back.
+func c10VaryErr(r *verifh.Rng, c c10Cfg) c10Cfg {
+	c = c10Clone(c)
+	sub := func(sc []string) {
+		for i, a := range sc {
+			if c10IsCancelTok(a) && r.Chance(2, 3) {
+				k := c10SpecialErrs[r.Intn(len(c10SpecialErrs))]
+				if c.api == "finish" && k == 110 {
+					k = 104
+				}
+				sc[i] = "c" + strconv.Itoa(k)
+			}
+		}
+	}
+	for _, sc := range c.m {
+		sub(sc)
+	}
+	sub(c.r)
+	return c
+}
+
+// c10Outcomes enumerates every way a user function can END at every entry point: normal return, cancel (see
+// c10ErrKinds), panic with a string, panic with an error value, runtime.Goexit — for a mapper, the reducer, a Finish /
+// FinishVoid function, a ForEach mapper; alone and while the other functions are still running.
+func c10Outcomes(r *verifh.Rng) []c10Cfg {
+	var out []c10Cfg
+	it := strconv.Itoa
+	for _, x := range []string{"p", "pe", "q", "y"} {
+		for _, api := range []string{"mr", "void", "chan"} {
+			for _, w := range []int{1, 2} {
+				c := c10Cfg{api: api, n: 2, w: w, ctx: "none", gp: -1, gx: -1}
+				c.m = [][]string{{"w1", x, "w3"}, {"w2"}}
+				c.r = []string{"a", "w7"}
+				out = append(out, c)
+				d := c10Cfg{api: api, n: 2, w: w, ctx: "none", gp: -1, gx: -1}
+				d.m = [][]string{{"w1"}, {"w2"}}
+				d.r = []string{"o", x, "a", "w7"}
+				out = append(out, d)
+				e := c10Cfg{api: api, n: 2, w: w, ctx: "none", gp: -1, gx: -1}
+				e.m = [][]string{{"w1"}, {"w2"}}
+				e.r = []string{"a", "w7", x}
+				out = append(out, e)
+			}
+		}
+		for _, api := range []string{"finish", "finishvoid", "each"} {
+			for n := 1; n <= 3; n++ {
+				i := r.Intn(n)
+				c := c10Cfg{api: api, n: n, w: n, ctx: "none", gp: -1, gx: -1}
+				c.m = make([][]string, n)
+				for j := range c.m {
+					c.m[j] = []string{"us" + it(n-1)}
+				}
+				c.m[i] = append(c.m[i], x)
+				if api == "finish" && x == "q" {
+					c.m[i] = append(c.m[i], "c5") // never reached: the function neither returns an error nor nil
+				}
+				out = append(out, c)
+			}
+		}
+	}
+	return out
+}
+
+// c10VaryPanic re-expresses panics of a call as panics with an error value.
+func c10VaryPanic(r *verifh.Rng, c c10Cfg) c10Cfg {
+	c = c10Clone(c)
+	sub := func(sc []string) {
+		for i, a := range sc {
+			if a == "p" && r.Chance(1, 2) {
+				sc[i] = "pe"
+			}
+		}
+	}
+	for _, sc := range c.m {
+		sub(sc)
+	}
+	sub(c.r)
+	return c
+}
+
+// c10ErrKinds enumerates every error VALUE class at every place an error enters the library: a mapper's cancel, the
+// reducer's cancel, the return value of a Finish function — on every entry point that takes one, alone and against a
+// second cancel / an early reducer write / a function that must no longer run.
+func c10ErrKinds(r *verifh.Rng) []c10Cfg {
+	var out []c10Cfg
+	it := strconv.Itoa
+	kinds := append([]int{5}, c10SpecialErrs...)
+	for _, k := range kinds {
+		ck := "c" + it(k)
+		for _, api := range []string{"mr", "void", "chan"} {
+			// a mapper cancels after a write; the reducer reads everything, then writes (the write must be dropped)
+			c := c10Cfg{api: api, n: 2, w: 2, ctx: "none", gp: -1, gx: -1}
+			c.m = [][]string{{"w1", ck}, {"w2"}}
+			c.r = []string{"a", "w7"}
+			out = append(out, c)
+			// the reducer cancels before reading
+			d := c10Cfg{api: api, n: 2, w: 1, ctx: "none", gp: -1, gx: -1}
+			d.m = [][]string{{"w1"}, {"w2"}}
+			d.r = []string{ck, "a"}
+			out = append(out, d)
+			// one worker: item 0 cancels, item 1 must see the cancel (it may or may not be started); the reducer does not write
+			e := c10Cfg{api: api, n: 3, w: 1, ctx: "none", gp: -1, gx: -1}
+			e.m = [][]string{{ck}, {"w2"}, {"w3"}}
+			e.r = []string{"a"}
+			out = append(out, e)
+			// two cancels with different value classes: the second one only after the first has returned
+			k2 := kinds[r.Intn(len(kinds))]
+			f := c10Cfg{api: api, n: 2, w: 2, ctx: "none", gp: -1, gx: -1}
+			f.m = [][]string{{"us1", ck}, {"ucem0", "c" + it(k2)}}
+			f.r = []string{"a"}
+			out = append(out, f)
+		}
+		if k != 110 {
+			for n := 1; n <= 3; n++ {
+				i := r.Intn(n)
+				c := c10Cfg{api: "finish", n: n, w: n, ctx: "none", gp: -1, gx: -1}
+				c.m = make([][]string, n)
+				for j := range c.m {
+					c.m[j] = []string{"us" + it(n-1)}
+				}
+				c.m[i] = append(c.m[i], ck)
+				out = append(out, c)
+			}
+		}
+	}
+	return out
+}
+
 func c10Plain(r *verifh.Rng, n, w int) c10Cfg {
 	c := c10Cfg{api: "mr", n: n, w: w, ctx: "none", gp: -1, gx: -1}
 	for i := 0; i < n; i++ {
@@ -1101,7 +1396,7 @@ func c10SafeStall(c c10Cfg) bool {
 			if a == "s" {
 				seen = true
 			}
-			if a == "p" && !seen {
+			if c10IsPanic(a) && !seen {
 				return false
 			}
 		}
@@ -1150,7 +1445,7 @@ func c10Random(r *verifh.Rng) c10Cfg {
 	c := c10Plain(r, n, w)
 	c.api = r.PickS("mr", "mr", "mr", "void")
 	nf := r.Pick(0, 1, 1, 2, 2, 3)
-	acts := []string{"p", "c0", "c5", "c6", "x", "y", "s", "w4"}
+	acts := []string{"p", "c0", "c5", "c6", "x", "y", "s", "w4", "pe", "q"}
 	for f := 0; f < nf; f++ {
 		a := acts[r.Intn(len(acts))]
 		d := c10Clone(c)
@@ -1159,7 +1454,7 @@ func c10Random(r *verifh.Rng) c10Cfg {
 			d.m[t] = c10Insert(d.m[t], r.Intn(len(d.m[t])+1), a)
 		case t == n:
 			d.r = c10Insert(d.r, r.Intn(len(d.r)+1), a)
-		case t == n+1 && a == "p":
+		case t == n+1 && c10IsPanic(a):
 			d.gp = r.Intn(n + 1)
 		case t == n+1 && a == "x":
 			d.gx = r.Intn(n + 1)
@@ -1510,6 +1805,25 @@ func c10Gen(r *verifh.Rng) []verifh.Section {
 			lines = append(lines, c10Vary(r, c).String())
 		}
 	}
+	// the same calls with other error VALUE classes handed to cancel / returned by the Finish functions
+	{
+		r4 := r.Fork()
+		for i := range lines {
+			if r4.Chance(1, 3) {
+				if c, ok := c10ParseLineAny(lines[i]); ok {
+					lines[i] = c10VaryPanic(r4, c10VaryErr(r4, c)).String()
+				}
+			}
+		}
+	}
+	for _, c := range c10Outcomes(r) {
+		lines = append(lines, c10Vary(r, c).String())
+	}
+	for rep := verifh.Scale(1, 4); rep > 0; rep-- {
+		for _, c := range c10ErrKinds(r) {
+			lines = append(lines, c10Vary(r, c).String())
+		}
+	}
 	// ForEach: plain and with a panicking item
 	for i := verifh.Scale(10, 200); i > 0; i-- {
 		w := r.Range(1, 4)
@@ -1571,9 +1885,249 @@ func c10ParseLine(line string) (c10Cfg, bool) {
 	return c, true
 }
 
+// c10ParseLineAny also reads lines whose w= is an option list / `def` and that carry co= (generation only).
+func c10ParseLineAny(line string) (c10Cfg, bool) {
+	f := strings.Fields(line)
+	if len(f) == 0 || f[0] != "run" {
+		return c10Cfg{}, false
+	}
+	cfg := verifh.ParseCfg(strings.Join(f[1:], " "))
+	ws := cfg.Str("w", "1")
+	eff := 16
+	if ws != "def" {
+		parts := strings.Split(ws, ",")
+		last, err := strconv.Atoi(parts[len(parts)-1])
+		if err != nil {
+			return c10Cfg{}, false
+		}
+		eff = last
+		if eff < 1 {
+			eff = 1
+		}
+	}
+	for i, t := range f {
+		if strings.HasPrefix(t, "w=") {
+			f[i] = "w=" + strconv.Itoa(eff)
+		}
+	}
+	c, ok := c10ParseLine(strings.Join(f, " "))
+	if !ok {
+		return c, false
+	}
+	if ws != strconv.Itoa(eff) {
+		c.ws = ws
+	}
+	if co := cfg.Int("co", -1); co >= 0 {
+		c.co = co + 1
+	}
+	c.ck = cfg.Str("ck", "")
+	return c, true
+}
+
+// ---------------------------------------------------------------- the building blocks on their own (deterministic)
+//
+//   unit gw cap=<k> ctx=<none|live|over> done=<open|closed> v=<n>   newGuardedWriter(ctx, ch, done).Write(v) on a channel of
+//        capacity k (0: a receiver is waiting) => delivered | dropped
+//   unit oc vals=<a,b,…>        newOnceChan(); write(a); write(b)…; repanic(); repanic() => first=<a|none> second=<…|none> buffered=<k>
+//   unit once calls=<n> insts=<m>   m functions made by once(fn), each called n times (the last two concurrently) => ran=<c1,c2,…>
+//   unit opts w=<def|a,b,…> ctx=<none|k>   buildOptions(WithWorkers(a), …, WithContext(ctx) at position k) => workers=<n> ctx=<bg|given>
+//   unit drain n=<k>            drain() of a closed channel holding k items => returned left=<len>
+func c10Unit(op []string) string {
+	if len(op) < 2 {
+		return "bad-op"
+	}
+	cfg := verifh.ParseCfg(strings.Join(op[2:], " "))
+	switch op[1] {
+	case "gw":
+		k := cfg.Int("cap", 0)
+		ctx, cancelCtx := context.Background(), func() {}
+		switch cfg.Str("ctx", "none") {
+		case "live":
+			ctx, cancelCtx = context.WithCancel(context.Background())
+		case "over":
+			ctx, cancelCtx = context.WithCancel(context.Background())
+			cancelCtx()
+		}
+		defer cancelCtx()
+		done := make(chan struct{})
+		if cfg.Str("done", "open") == "closed" {
+			close(done)
+		}
+		ch := make(chan int, k)
+		got := make(chan int, 1)
+		stop := make(chan struct{})
+		var wg sync.WaitGroup
+		if k == 0 {
+			wg.Add(1)
+			go func() {
+				defer wg.Done()
+				select {
+				case v := <-ch:
+					got <- v
+				case <-stop:
+				}
+			}()
+		}
+		w := newGuardedWriter[int](ctx, ch, done)
+		ret := make(chan struct{})
+		go func() { w.Write(cfg.Int("v", 1)); close(ret) }()
+		select {
+		case <-ret:
+		case <-time.After(c10HangMax):
+			close(stop)
+			return "blocked"
+		}
+		close(stop)
+		wg.Wait()
+		select {
+		case v := <-got:
+			return "delivered:" + strconv.Itoa(v)
+		default:
+		}
+		if len(ch) == 1 {
+			return "delivered:" + strconv.Itoa(<-ch)
+		}
+		return "dropped"
+	case "oc":
+		oc := newOnceChan()
+		for _, x := range strings.Split(cfg.Str("vals", ""), ",") {
+			if x != "" {
+				oc.write("v" + x)
+			}
+		}
+		buffered := len(oc.channel)
+		re := func() (out string) {
+			defer func() {
+				if p := recover(); p != nil {
+					out = fmt.Sprint(p)
+				}
+			}()
+			oc.repanic()
+			return "none"
+		}
+		return fmt.Sprintf("first=%s second=%s buffered=%d", re(), re(), buffered)
+	case "once":
+		n, m := cfg.Int("calls", 1), cfg.Int("insts", 1)
+		var ran []string
+		for i := 0; i < m; i++ {
+			var cnt int32
+			var last error
+			f := once(func(err error) { atomic.AddInt32(&cnt, 1); last = err })
+			var wg sync.WaitGroup
+			for j := 0; j < n; j++ {
+				if j >= n-2 {
+					wg.Add(1)
+					go func(j int) { defer wg.Done(); f(c10Err{j + 1}) }(j)
+				} else {
+					f(c10Err{j + 1})
+				}
+			}
+			wg.Wait()
+			s := strconv.Itoa(int(atomic.LoadInt32(&cnt)))
+			if n > 2 && last != (c10Err{1}) {
+				s += "!first-call-lost"
+			}
+			ran = append(ran, s)
+		}
+		return "ran=" + strings.Join(ran, ",")
+	case "opts":
+		var opts []Option
+		if ws := cfg.Str("w", "def"); ws != "def" {
+			for _, x := range strings.Split(ws, ",") {
+				opts = append(opts, WithWorkers(verifh.Atoi(x)))
+			}
+		}
+		type key struct{}
+		given := context.WithValue(context.Background(), key{}, 1)
+		if p := cfg.Str("ctx", "none"); p != "none" {
+			k := verifh.Atoi(p)
+			if k < 0 || k > len(opts) {
+				k = len(opts)
+			}
+			opts = append(opts[:k:k], append([]Option{WithContext(given)}, opts[k:]...)...)
+		}
+		type key2 struct{}
+		given2 := context.WithValue(context.Background(), key2{}, 2)
+		if p := cfg.Str("ctx2", "none"); p != "none" {
+			k := verifh.Atoi(p)
+			if k < 0 || k > len(opts) {
+				k = len(opts)
+			}
+			opts = append(opts[:k:k], append([]Option{WithContext(given2)}, opts[k:]...)...)
+		}
+		o := buildOptions(opts...)
+		c := "other"
+		switch o.ctx {
+		case given2:
+			c = "given2"
+		case given:
+			c = "given"
+		case context.Background():
+			c = "bg"
+		}
+		return fmt.Sprintf("workers=%d ctx=%s", o.workers, c)
+	case "drain":
+		k := cfg.Int("n", 0)
+		ch := make(chan int, k)
+		for i := 0; i < k; i++ {
+			ch <- i
+		}
+		close(ch)
+		ret := make(chan struct{})
+		go func() { drain[int](ch); close(ret) }()
+		select {
+		case <-ret:
+			return "returned left=" + strconv.Itoa(len(ch))
+		case <-time.After(c10HangMax):
+			return "blocked"
+		}
+	}
+	return "bad-op"
+}
+
+func c10UnitGen(r *verifh.Rng) []verifh.Section {
+	var ops []string
+	for _, k := range []int{0, 1, 3, 16} {
+		for _, cx := range []string{"none", "live", "over"} {
+			for _, d := range []string{"open", "closed"} {
+				ops = append(ops, fmt.Sprintf("unit gw cap=%d ctx=%s done=%s v=%d", k, cx, d, r.Range(1, 99)))
+			}
+		}
+	}
+	for _, v := range []string{"", "1", "1,2", "2,1", "3,3,3", "4,5,6,7"} {
+		ops = append(ops, "unit oc vals="+v)
+	}
+	for n := 0; n <= 5; n++ {
+		ops = append(ops, fmt.Sprintf("unit once calls=%d insts=%d", n, r.Range(1, 3)))
+	}
+	for _, w := range []string{"def", "1", "0", "-5", "16", "17", "3,0", "0,3", "2,2,9", "-1,-1"} {
+		ops = append(ops, "unit opts w="+w+" ctx=none")
+		n := len(strings.Split(w, ","))
+		if w == "def" {
+			n = 0
+		}
+		for k := 0; k <= n; k++ {
+			ops = append(ops, fmt.Sprintf("unit opts w=%s ctx=%d", w, k))
+			// two WithContext options: the one applied last wins
+			ops = append(ops, fmt.Sprintf("unit opts w=%s ctx=%d ctx2=%d", w, k, r.Range(0, n+1)))
+		}
+	}
+	for _, k := range []int{0, 1, 5} {
+		ops = append(ops, fmt.Sprintf("unit drain n=%d", k))
+	}
+	return []verifh.Section{{Cfg: "kind=unit", Ops: ops}}
+}
+
 func TestVerifC10(t *testing.T) {
-	secs := verifh.Sections(c10Gen)
+	secs := verifh.Sections(func(r *verifh.Rng) []verifh.Section {
+		return append(c10UnitGen(r.Fork()), c10Gen(r)...)
+	})
 	verifh.Run(t, secs, func(cfg verifh.Cfg) (func(op []string) string, func()) {
-		return c10Exec, nil
+		return func(op []string) string {
+			if len(op) > 0 && op[0] == "unit" {
+				return c10Unit(op)
+			}
+			return c10Exec(op)
+		}, nil
 	})
 }
